@@ -208,6 +208,8 @@ impl Pager {
         if !existed || file.metadata()?.len() == 0 {
             let meta = Meta::new();
             let bitmap = Bitmap::new();
+            #[cfg(nervusdb_verif)]
+            crate::verif_io::hook(crate::verif_io::IoKind::SetLen, &path, None, (PAGE_SIZE * 2) as u64, &[])?;
             file.set_len((PAGE_SIZE * 2) as u64)?;
 
             let mut pager = Self {
@@ -422,11 +424,15 @@ impl Pager {
             return Err(Error::PageNotAllocated(page_id.as_u64()));
         }
 
+        #[cfg(nervusdb_verif)]
+        crate::verif_io::hook(crate::verif_io::IoKind::Write, &self.path, None, page_id.as_u64() * PAGE_SIZE as u64, page)?;
         write_page_raw(&self.file, page_id, page)?;
         Ok(())
     }
 
     pub fn sync(&mut self) -> Result<()> {
+        #[cfg(nervusdb_verif)]
+        crate::verif_io::hook(crate::verif_io::IoKind::Sync, &self.path, None, 0, &[])?;
         self.file.sync_data()?;
         Ok(())
     }
@@ -445,6 +451,8 @@ impl Pager {
         let required_bytes = (page_id.as_u64() + 1) * PAGE_SIZE as u64;
         let current_len = self.file.metadata()?.len();
         if current_len < required_bytes {
+            #[cfg(nervusdb_verif)]
+            crate::verif_io::hook(crate::verif_io::IoKind::SetLen, &self.path, None, required_bytes, &[])?;
             self.file.set_len(required_bytes)?;
         }
 
@@ -460,10 +468,16 @@ impl Pager {
 
     fn flush_meta_and_bitmap(&mut self) -> Result<()> {
         let meta_page = self.meta.encode_page();
+        #[cfg(nervusdb_verif)]
+        crate::verif_io::hook(crate::verif_io::IoKind::Write, &self.path, None, META_PAGE_ID.as_u64() * PAGE_SIZE as u64, &meta_page)?;
         write_page_raw(&self.file, META_PAGE_ID, &meta_page)?;
+        #[cfg(nervusdb_verif)]
+        crate::verif_io::hook(crate::verif_io::IoKind::Write, &self.path, None, BITMAP_PAGE_ID.as_u64() * PAGE_SIZE as u64, &self.bitmap.data)?;
         write_page_raw(&self.file, BITMAP_PAGE_ID, &self.bitmap.data)?;
         // Ensure meta + bitmap durability. WAL replay can recover data pages, but
         // durable metadata reduces recovery work and avoids pathological re-scan.
+        #[cfg(nervusdb_verif)]
+        crate::verif_io::hook(crate::verif_io::IoKind::Sync, &self.path, None, 0, &[])?;
         self.file.sync_data()?;
         Ok(())
     }
